@@ -1012,6 +1012,8 @@ class _FuncAnalysis:
                 return (0, 1)
         if isinstance(e, ast.Call) and call_name(e) == "bool":
             return (0, 1)
+        if isinstance(e, ast.Call) and call_name(e) == "len" and len(e.args) == 1 and not e.keywords:
+            return (0, 2 ** 63 - 1)
         return None
 
     def builtin_call(self, name: str, c: ast.Call, local: tuple) -> set[Esc]:
